@@ -105,7 +105,7 @@ ASSUMPTIONS = [
     "TSInterpolator on a one-point series follows the installed scipy (only length 1 can be requested); older scipy rejects it outright",
     "PAA: a later column shorter than num_intervals (only the first column is validated by the code) is outside the property's domain and not sent to the model",
     "RandomIntervalFeatureExtractor: how the random intervals are drawn is not modelled; the fitted intervals are read back from the real object (or set by the harness) and the features of their slices are checked",
-    "SlopeTransformer: the square root stays in the harness (the model returns (w, r); compared through sign(m) and m - 1/m = 2w/r); the segment bounds are taken in exact arithmetic, cases where the code's float accumulation `beginning += avg` moves a bound or adds a segment are not sent to the model (the extra segment is known finding slopet:number-of-gradients), nor are non-constant segments whose covariance with time is exactly zero (the code's float test `r == 0` is then decided by rounding)",
+    "SlopeTransformer: the square root stays in the harness (the model returns (w, r); compared through sign(m) and m - 1/m = 2w/r); the segment bounds are integer arithmetic (i*n)//k in code (since bef631c) and model alike; not sent to the model: non-constant segments whose covariance with time is exactly zero (the code's float test `r == 0` is then decided by rounding)",
     "row transformers / adaptor are checked with harness-defined and sklearn transformers that act column-wise",
     "cell / series dtype (float64, int64, int32 with integer-valued data, per-column mixed int/float; float32 for the value-moving transformers pad, truncate, tabularize, concatenate, interval / sliding-window segmenters) is varied on the real code for every transformer; the required values do not depend on it, so the model (over Rat, or Option Rat for padding where the fill value / values may be NaN) has no dtype. float32 input to the arithmetic transformers is not generated: their float32 rounding is outside exact arithmetic",
 ]
@@ -1588,24 +1588,10 @@ def _exact_bounds(n, k):
     return [((j * n) // k, ((j + 1) * n) // k) for j in range(k)]
 
 
-def _float_bounds(n, k):
-    """segment bounds as the float loop `beginning += avg` of `_split_time_series` produces them; only used to decide
-    whether a case is inside the model's exact-arithmetic domain"""
-    avg = n / float(k)
-    out, b = [], 0.0
-    while b < n:
-        out.append((int(b), min(n, int(b + avg))))
-        b += avg
-    return out
-
-
 def slope_in_domain(c):
     k = c["k"]
     if not (isinstance(k, int) and not isinstance(k, bool)) or k < 1:
         return True
-    lens = {len(s) for inst in c["x"] for s in inst}
-    if not all(k > n or _float_bounds(n, k) == _exact_bounds(n, k) for n in lens):
-        return False
     # a non-constant segment whose covariance with time is EXACTLY zero: the code's `if r == 0` is then decided by
     # float rounding (gradient 0 or about +-1e16, the line being vertical/undetermined); outside exact arithmetic
     for inst in c["x"]:
@@ -1623,7 +1609,7 @@ def slope_in_domain(c):
 
 def slope_line(c):
     if not slope_in_domain(c):
-        return None      # float accumulation of the segment bounds differs from exact arithmetic: not modelled
+        return None      # a segment whose `r == 0` test is decided by float rounding: not modelled
     return "C14 slopet %s %s" % (iparam(c["k"]), show_panel(c["x"]))
 
 
@@ -1663,8 +1649,6 @@ def slope_oracle(c, out):
             n = len(s)
             if len(mcell) != k:
                 return [("slopet:number-of-gradients", "%d gradients for num_intervals=%d (series length %d)" % (len(mcell), k, n))]
-            if _float_bounds(n, k) != _exact_bounds(n, k):
-                continue          # segment bounds moved by float accumulation: values not judged
             for (a, b), m in zip(_exact_bounds(n, k), mcell):
                 seg = s[a:b]
                 L = len(seg)
